@@ -147,6 +147,48 @@ fn hollow(m: &mut M, c: Comp) {
     }
 }
 
+pub fn situations(alpha: &Alpha) -> Vec<(&'static str, M)> {
+    use crate::model::{Msg, Tree};
+    let mut v = vec![];
+    let mut q = populated();
+    q.quote = true;
+    v.push(("quote-pending", q));
+    let mut full = populated();
+    full.input = (0..10).map(|k| Msg { header: vec![80 + k], body: vec![k % 2 == 0, true] }).collect();
+    full.output = (0..3).map(|k| Msg { header: vec![90 + k], body: vec![k % 2 == 1] }).collect();
+    v.push(("queues-full", full));
+    let mut crowded = populated();
+    for k in 0..40 {
+        crowded.b.push(k % 3 == 0);
+        crowded.i.push(200 + k);
+        crowded.f.push(200.5 + k as f32);
+        crowded.n.push(format!("M{}", k));
+        if k < 25 {
+            crowded.c.push(Tree::I(300 + k));
+            crowded.e.push(Tree::I(400 + k));
+        }
+    }
+    v.push(("crowded", crowded));
+    let mut spent = populated();
+    spent.x = vec![(2, 2), (0, 0), (5, 3), (1, 3)];
+    v.push(("spent-indices", spent));
+    let mut bound = populated();
+    for (k, n) in alpha.names.iter().enumerate() {
+        bound.bindings.insert(n.clone(), if k % 2 == 0 { Tree::I(500 + k as i32) } else { Tree::L(vec![Tree::I(600 + k as i32), Tree::ins("NOOP")]) });
+    }
+    for n in ["N1", "N2", "N3", "N8", "N9"] {
+        bound.bindings.insert(n.to_string(), Tree::I(7));
+    }
+    for (n, t) in [("NOOP", Tree::I(1)), ("INTEGER.+", Tree::I(2)), ("1", Tree::I(3)), ("TRUE", Tree::B(false)), ("2.5", Tree::F(9.5)), ("(", Tree::I(4))] {
+        bound.bindings.insert(n.to_string(), t);
+    }
+    let mut bq = bound.clone();
+    bq.quote = true;
+    v.push(("operands-bound", bound));
+    v.push(("operands-bound+quote-pending", bq));
+    v
+}
+
 /// evenly spaced selection from every operand list so that the product stays below `cap`
 fn thin_lists(lists: &[Vec<Frag>], cap: usize) -> Vec<Vec<Frag>> {
     if product_size(lists) <= cap {
@@ -330,6 +372,25 @@ pub fn run(ctx: &mut Ctx, real: &mut Real, sw: &Sweep) {
                         apply(&mut m0, f);
                     }
                     exec_case(ctx, real, sw.oracle, id, name, &m0, &label, false);
+                });
+            }
+        }
+        // "situation" bases: the populated state in a condition that earlier, unrelated instructions can leave behind --
+        // a pending NAME.QUOTE, full INPUT / OUTPUT queues, crowded stacks (more than 100 items in total), spent INDEX
+        // entries, and bindings for every name of the alphabets and for names that read like other tokens
+        if sw.populated_too && !sw.only_missing {
+            let thin = thin_lists(&lists, 200);
+            for (label, base) in situations(&alpha) {
+                for_product(&thin, |cur| {
+                    let id = match ctx.take() {
+                        Some(id) => id,
+                        None => return,
+                    };
+                    let mut m0 = base.clone();
+                    for f in cur {
+                        apply(&mut m0, f);
+                    }
+                    exec_case(ctx, real, sw.oracle, id, name, &m0, label, false);
                 });
             }
         }
